@@ -57,3 +57,17 @@ Print Assumptions C10_closed_form.
 Print Assumptions C10_bounds.
 Print Assumptions C10_payload_durations.
 Print Assumptions C10_every_evaluation_of_a_frame.
+
+(* ---- lifted to every reachable world (Proofs/TrackP.v): an instance held continuously from the moment it was
+   created (fresh data), through any run of frames and of operations that do not deactivate it: the polled
+   durations are the closed form over the frames' virtual deltas, and 0 <= fired <= elapsed ---- *)
+From BEI Require Import Model.Frame Proofs.RegistryP Proofs.TrackDefs Proofs.TrackP.
+Theorem C10_world_durations : forall sc c e a steps w dm,
+  reg_inv sc w -> cfg_inv sc (w_reg w) -> owner sc c a -> ev_free sc c a ->
+  forallb (quiet_step c e) steps = true -> stored (w_reg w) c e a = Some (data_new dm) ->
+  exists w' d' rp, steps_world sc w steps = Some w' /\ stored (w_reg w') c e a = Some d' /\
+    map snd rp = rev (frame_deltas steps) /\
+    (d_elapsed d' == elapsed_spec rp /\ d_fired d' == fired_spec rp)%Q /\
+    (Forall (fun dt => 0 <= dt)%Q (frame_deltas steps) -> 0 <= d_fired d' /\ d_fired d' <= d_elapsed d')%Q.
+Proof. exact held_run_durations. Qed.
+Print Assumptions C10_world_durations.
